@@ -223,6 +223,10 @@ func propC04(c *Ctx, r *Report) {
 			}
 		}
 	}
+	// the unfilled part of a PEG request is given back: nothing is destroyed when the share rounds to zero (shared with C16)
+	ruleRefundFormula(c, r, "C04-R9/refund-formula")
+	// developer rewards are one of the enumerated events: exactly their amounts (shared with C15)
+	ruleDevRewards(c, r, newEraCtx(c, r), "C04-R8/dev-reward-amounts")
 	// R5 second pass
 	r.rule("C04-R5/second-pass-peg-only", 1, "the PEG bank pass credits PEG requests only")
 	secondPassPEGOnly(c, r, "C04-R5/second-pass-peg-only")
